@@ -65,7 +65,7 @@ def variants(c, rng, tier):
             if np.linalg.norm(np.cross(ax, c["pp"][o] - c["pp"][a1])) > 0.3 * np.linalg.norm(ax):
                 trip.append((a1, a2, o))
         with0 = [t for t in trip if 0 in t]
-        pick = (rng.sample(with0, min(2, len(with0))) + rng.sample(trip, min(2 if tier == "quick" else 6, len(trip))))
+        pick = (rng.sample(with0, min(4, len(with0))) + rng.sample(trip, min(2 if tier == "quick" else 6, len(trip))))
         for t in pick:
             out.append(("hints", dict(c, hints=t)))
     # 5. supercells: every occurrence once per image
